@@ -3,6 +3,7 @@
 package tracer
 
 import (
+	"context"
 	"errors"
 	"fmt"
 	"io"
@@ -11,6 +12,7 @@ import (
 	"sort"
 	"strings"
 	"sync"
+	"time"
 
 	"connectrpc.com/conformance/internal/gen/proto/go/connectrpc/conformance/v1"
 )
@@ -326,7 +328,9 @@ func VerifServeHandler(traced bool, reqHeaders http.Header, body *VerifScriptRea
 	var out VerifHandlerOut
 	coll := &VerifCollector{}
 	rw := &verifRW{h: http.Header{}, accept: accept}
-	req := verifRequest(reqHeaders)
+	ctx, cancel := context.WithCancel(context.Background())
+	defer cancel()
+	req := verifRequest(reqHeaders).WithContext(ctx)
 	req.Body = body
 	handler := http.HandlerFunc(func(w http.ResponseWriter, r *http.Request) {
 		buf := make([]byte, 1<<12)
@@ -349,6 +353,10 @@ func VerifServeHandler(traced bool, reqHeaders http.Header, body *VerifScriptRea
 				}
 			case "set":
 				w.Header().Set(a.Key, a.Val)
+			case "cancel": // the client goes away: the server cancels the request's context
+				cancel()
+			case "yield": // let the middleware's goroutine run
+				time.Sleep(time.Millisecond)
 			case "panic":
 				panic("verif: scripted panic")
 			}
@@ -443,9 +451,12 @@ func VerifRoundTrip(reqHeaders http.Header, reqBody *VerifScriptReader, fail boo
 			Header: respHeaders, Body: respBody, ContentLength: -1, Request: req,
 		}, nil
 	})
-	req := verifRequest(reqHeaders)
+	ctx, cancel := context.WithCancel(context.Background())
+	defer cancel() // releases the middleware's goroutine; the observations are taken by then
+	req := verifRequest(reqHeaders).WithContext(ctx)
 	req.Body = reqBody
 	resp, err := TracingRoundTripper(transport, coll).RoundTrip(req)
+	cancelled := false
 	out.Err = VerifErrClass(err)
 	out.SameErr = err == nil || err == VerifErrInner //nolint:errorlint // identity is the point
 	out.RespHeader = []string{}
@@ -460,7 +471,18 @@ func VerifRoundTrip(reqHeaders http.Header, reqBody *VerifScriptReader, fail boo
 				out.CallerSaw = append(out.CallerSaw, VerifStep{fmt.Sprintf("%x", buf[:n]), VerifErrClass(err)})
 			case "c":
 				out.CloseSeen = append(out.CloseSeen, VerifErrClass(resp.Body.Close()))
+			case "x": // the caller cancels the request's context
+				cancel()
+				cancelled = true
+			case "y": // let the middleware's goroutine run
+				time.Sleep(time.Millisecond)
 			}
+		}
+	}
+	if cancelled {
+		// the RequestCanceled event is added by a goroutine: give it time to arrive
+		for i := 0; i < 5000 && coll.Count() == 0; i++ {
+			time.Sleep(time.Millisecond)
 		}
 	}
 	out.Completions = coll.Count()
